@@ -1262,6 +1262,12 @@ pub const N_FAMILIES: usize = 11;
 
 /// Families meant to be accepted by kiki (random ones are filtered by kiki).
 pub fn accepted_family(rng: &mut Rng) -> Cfg {
+    if std::env::var("VERIF_ONLY_RANDOM_FAMILY").is_ok() {
+        // experiment switch (not used by the registered checks): uniform random small CFGs only
+        let mut c = fam_random(rng);
+        dedup_rules(&mut c);
+        return c;
+    }
     let w = rng.weighted(&[3, 4, 3, 4, 2, 2, 2, 2, 3, 3, 3, 3, 2, 3, 6, 8, 3, 1]);
     let mut c = match w {
         0..=15 => base_family(rng, w),
@@ -1565,7 +1571,20 @@ pub fn add_unproductive(c: &mut Cfg, rng: &mut Rng) {
 }
 
 pub fn workload_grammar(rng: &mut Rng) -> Grammar {
-    let mut cfg = accepted_family(rng);
+    workload_grammar_mix(rng, 0)
+}
+
+/// `random_pct` per cent of the grammars are uniform random small CFGs (on top of the share the
+/// family mix gives them anyway): the tables-only extension uses a third, because the family mix
+/// and the uniform draw find different seeded defects (DESIGN section 11).
+pub fn workload_grammar_mix(rng: &mut Rng, random_pct: usize) -> Grammar {
+    let mut cfg = if rng.chance(random_pct, 100) {
+        let mut c = fam_random(rng);
+        dedup_rules(&mut c);
+        c
+    } else {
+        accepted_family(rng)
+    };
     if rng.chance(1, 6) {
         add_unproductive(&mut cfg, rng);
     }
